@@ -832,6 +832,44 @@ fn search_term(t: &T, seed: u64, per: usize, st: &mut Stats) {
     }
 }
 
+/// Regression inputs of repaired defects that are not catalogue terms
+fn search_regress(st: &mut Stats) -> usize {
+    let mut n = 0;
+    // 9a425ad: anti must refuse a function whose trailing un-inversion leaves nodes over (gave 4.5)
+    for (src, want) in [("⌝(⁅+) 1 5.5", "No inverse found")] {
+        n += 1;
+        st.evals += 1;
+        let src2 = src.to_string();
+        let res = fresh_thread(move || run_uiua(&format!("# Experimental!\n{src2}")));
+        match res {
+            Err(e) if e.contains(want) => {}
+            other => viol("regression", "directed:regression:anti-leftover", src, &[], &format!("expected the error '{want}', got {:?}", other.map(|v| show(&v)))),
+        }
+    }
+    // 261768c: the anti cache is keyed on for_un: ⌝ℂ 1 and °(ℂ 1) must not depend on which was compiled first
+    let (a, b) = ("⌝ℂ 1 ℂ0 5", "°(ℂ 1) ℂ0 5");
+    let run_seq = |order: Vec<&'static str>| {
+        fresh_thread(move || order.iter().map(|s| (s.to_string(), run_uiua(s).map(|v| show(&v)))).collect::<Vec<_>>())
+    };
+    let alone_a = run_seq(vec![a]);
+    let alone_b = run_seq(vec![b]);
+    let ab = run_seq(vec![a, b]);
+    let ba = run_seq(vec![b, a]);
+    n += 2;
+    st.evals += 6;
+    let norm = |r: &Result<String, String>| match r {
+        Ok(v) => format!("ok {v}"),
+        Err(e) => format!("err {}", e.split(':').last().unwrap_or("").trim()),
+    };
+    if norm(&ab[0].1) != norm(&alone_a[0].1) || norm(&ba[1].1) != norm(&alone_a[0].1) {
+        viol("regression", "directed:regression:anti-cache-for-un", a, &[], &format!("alone {:?}, first {:?}, second {:?}", alone_a[0].1, ab[0].1, ba[1].1));
+    }
+    if norm(&ab[1].1) != norm(&alone_b[0].1) || norm(&ba[0].1) != norm(&alone_b[0].1) {
+        viol("regression", "directed:regression:anti-cache-for-un", b, &[], &format!("alone {:?}, second {:?}, first {:?}", alone_b[0].1, ab[1].1, ba[0].1));
+    }
+    n
+}
+
 /// Arithmetic chains that reach the algebra solver (compile/algebra.rs algebraic_inverse): every chain
 /// of 2 steps and chains of 3 steps over steps x -> m*x + k with every sign / magnitude class of the
 /// net slope and zero / non-zero net constant; exact on the (binary) inputs used.  Numbers only: on
@@ -1149,6 +1187,8 @@ fn main() {
             search_anti(r.next(), (n / 40).max(20), &mut st);
             let directed = search_directed(&mut st);
             println!("{{\"directed\":true,\"programs\":{directed}}}");
+            let regress = search_regress(&mut st);
+            println!("{{\"regress\":true,\"programs\":{regress}}}");
             let (ran, noinv, classes) = search_arith(&mut r, (n / 12).max(300), &mut st);
             println!(
                 "{{\"arith\":true,\"chains\":{ran},\"without_inverse\":{noinv},\"chains_by_class_slope_gt1_eq1_0to1_m1to0_eqm1_ltm1_x_const_zero_nonzero\":{classes:?}}}"
